@@ -15,7 +15,7 @@ search:  all 65 reb_particle_derivative_* vs 60-digit finite differences of an i
          orders 1,2; WHFast order 1; every vary() parameter and supported pair; test-particle
          variations; move_to_com); rescaling continuity; MEGNO -> 2, Lyapunov -> 0.
 """
-import ctypes, json, math, os, re, subprocess, sys
+import ctypes, json, math, os, pickle, re, select, signal, subprocess, sys, time, traceback
 sys.path.insert(0, os.path.dirname(os.path.abspath(__file__)))
 from common import *
 
@@ -293,6 +293,83 @@ def tie_accelerations(c, rebound, exe):
             tgt = ad["var2S-massless"] if massless else excl["var2-massive-testparticles"]
             push(["ad2S"] + hdr + toks2, lambda out, want=want, sc=sc, inf=inf, tgt=tgt: tgt.add(vals(out), want, sc, inf))
         c.count(("accS", n, na, tptype, massless), nontrivial=True, n=3)
+    # ---------------------------------------------------------------- gravity_ignore_terms = 1, 2 (what WHFast sets)
+    for k in ("forceI", "var1I"):
+        cm[k] = Cmp(k, 1e-13)
+    ad["var1I"] = Cmp("AD:var1I", 1e-12)
+    for case in range(ncases // 3):
+        rng = c.rng.fork()
+        n = rng.choice([1, 2, 3, 3, 4, 5, 7])
+        ign = rng.randint(1, 2)
+        G, L, m0, ps = gen_gravity_case(rng, n)
+        da = gen_var(rng, n, L, m0)
+        sim = rebound.Simulation()
+        sim.G = G
+        for p in ps:
+            sim.add(m=p[0], x=p[1], y=p[2], z=p[3])
+        sim.gravity_ignore = ign
+        va = sim.add_variation()
+        q = va.particles
+        for i in range(n):
+            q[i].m, q[i].x, q[i].y, q[i].z = da[i]
+        clib.reb_simulation_update_acceleration(ctypes.byref(sim))
+        info = dict(case=case, N=n, gravity_ignore_terms=ign, G=G, particles=ps, var=da)
+        want = [v for i in range(n) for v in (sim.particles[i].ax, sim.particles[i].ay, sim.particles[i].az)]
+        fs = [sum(abs(G * ps[j][0]) / norm3([ps[i][k] - ps[j][k] for k in (1, 2, 3)]) ** 2 for j in range(n) if j != i) + 1e-300 for i in range(n)]
+        push(["forceI", str(ign), str(n), d2h(G), d2h(0.0)] + gp_tokens(ps),
+             lambda out, want=want, fs=fs, info=info: cm["forceI"].add(vals(out), want, fs, info))
+        want = [v for i in range(n) for v in (q[i].ax, q[i].ay, q[i].az)]
+        sc = [scale1(G, ps, da, i) + 1e-300 for i in range(n)]
+        toks = [str(ign), str(n), d2h(G)] + gp_tokens(ps) + gp_tokens(da)
+        push(["var1I"] + toks, lambda out, want=want, sc=sc, info=info: cm["var1I"].add(vals(out), want, sc, info))
+        push(["ad1I"] + toks, lambda out, want=want, sc=sc, info=info: ad["var1I"].add(vals(out), want, sc, info))
+        c.count(("accI", n, ign), nontrivial=n >= 3, n=3)
+    # ---------------------------------------------------------------- WHFast interaction step: Jacobi term and its variation
+    cm["whjac"] = Cmp("whjac", 1e-13)
+    ad["whjac"] = Cmp("AD:whjac", 1e-12)
+    P = rebound.Particle
+    for case in range(ncases // 3):
+        rng = c.rng.fork()
+        n = rng.choice([3, 3, 4, 5])
+        sim = rebound.Simulation()
+        sim.G = rng.choice([1.0, rng.loguniform(1e-2, 1e2)])
+        for i in range(n):
+            sim.add(m=rng.loguniform(1e-4, 1.0), x=rng.normal(), y=rng.normal(), z=rng.normal())
+        sim.integrator = "whfast"
+        va = sim.add_variation()
+        if clib.reb_integrator_whfast_init(ctypes.byref(sim)) != 0:
+            c.corr_break("reb_integrator_whfast_init refused a first-order variation")
+            break
+        clib.reb_integrator_whfast_from_inertial(ctypes.byref(sim))
+        pj = sim.ri_whfast._p_jh
+        N = sim.N
+        L = rng.loguniform(1e-2, 1e2)
+        for k in range(N):
+            sim.particles[k].ax = sim.particles[k].ay = sim.particles[k].az = 0.0
+            pj[k].x, pj[k].y, pj[k].z = (L * rng.normal() for _ in range(3))
+            pj[k].vx = pj[k].vy = pj[k].vz = 0.0
+            pj[k].ax = pj[k].ay = pj[k].az = 0.0
+            if 0 < k < n:
+                pj[k].m = rng.loguniform(1e-4, 1.0)
+        dt = rng.uniform(-0.1, 0.1)
+        before = [(pj[k].m, pj[k].x, pj[k].y, pj[k].z) for k in range(N)]
+        clib.reb_whfast_interaction_step(ctypes.byref(sim), ctypes.c_double(dt))
+        eta = sim.particles[0].m
+        for i in range(1, n):
+            eta = eta + before[i][0]
+            if i < 2:
+                continue
+            x, y, z = before[i][1:]
+            dx, dy, dz = before[i + va.index][1:]
+            want = [pj[i].vx, pj[i].vy, pj[i].vz, pj[i + va.index].vx, pj[i + va.index].vy, pj[i + va.index].vz]
+            r = norm3([x, y, z])
+            s0 = abs(dt * sim.G * eta) / r ** 2
+            s1 = abs(dt * sim.G * eta) * 4 * norm3([dx, dy, dz]) / r ** 3
+            toks = [d2h(v) for v in (sim.G, eta, dt, 0.0, x, y, z, dx, dy, dz)]
+            inf = dict(case=case, N=n, i=i, G=sim.G, eta=eta, dt=dt, x=[x, y, z], dx=[dx, dy, dz])
+            push(["whjac"] + toks, lambda out, want=want, s0=s0, s1=s1, inf=inf: cm["whjac"].add(vals(out), want, [s0, s1], inf))
+            push(["adwhjac"] + toks, lambda out, want=want, s1=s1, inf=inf: ad["whjac"].add(vals(out), want[3:], [s1], inf))
+            c.count(("whjac", n, i), nontrivial=True)
     # ---------------------------------------------------------------- excluded points, measured: softening != 0
     for case in range(max(4, ncases // 10)):
         rng = c.rng.fork()
@@ -1084,6 +1161,67 @@ def search_rescale_megno(c, rebound):
     c.cov["megno"] = meg
 
 
+def run_phase(c, name, fn, timeout):
+    """run one phase of the check in a forked child under a watchdog: a seeded bug can make the real
+    code hang (e.g. IAS15's step-rejection loop on NaN) and the check must still terminate and say so.
+    The child's view of the check context (coverage, violations, ...) replaces the parent's."""
+    r, w = os.pipe()
+    sys.stdout.flush()
+    pid = os.fork()
+    if pid == 0:
+        os.close(r)
+        try:
+            try:
+                fn()
+                msg = ("ok", (c.cov, c._distinct, c.violations, c.known_hit, c.broken, getattr(c, "_corr_detail", None)))
+            except Infra as ex:
+                msg = ("infra", str(ex))
+            except BaseException:
+                msg = ("exc", traceback.format_exc())
+            with os.fdopen(w, "wb") as f:
+                f.write(pickle.dumps(msg))
+            sys.stdout.flush()
+        finally:
+            os._exit(0)
+    os.close(w)
+    buf = b""
+    t0 = time.time()
+    hung = False
+    while True:
+        left = timeout - (time.time() - t0)
+        if left <= 0:
+            hung = True
+            break
+        rd, _, _ = select.select([r], [], [], min(left, 5.0))
+        if rd:
+            chunk = os.read(r, 1 << 20)
+            if not chunk:
+                break
+            buf += chunk
+    os.close(r)
+    if hung:
+        os.kill(pid, signal.SIGKILL)
+    os.waitpid(pid, 0)
+    if hung:
+        c.cov.setdefault("phases_timed_out", []).append(name)
+        c.violation("hang:" + name, "the real code did not return within %d s in phase '%s' (watchdog)" % (timeout, name),
+                    {"phase": name, "timeout_s": timeout, "note": "re-run the check with the same VERIF_SEED to reproduce"})
+        return
+    try:
+        kind, val = pickle.loads(buf)
+    except Exception:
+        kind, val = "exc", "phase '%s' died without a result (crash of the real code?)" % name
+    if kind == "ok":
+        c.cov, c._distinct, c.violations, c.known_hit, c.broken, cd_ = val
+        if cd_ is not None:
+            c._corr_detail = cd_
+    elif kind == "infra":
+        raise Infra(val)
+    else:
+        c.corr_break("phase '%s' of the check crashed" % name, val[-1500:])
+        c.violation("crash:" + name, "phase '%s' crashed (python exception or abort of the real code)" % name, {"traceback": val[-3000:]})
+
+
 def run(c):
     d = build()
     rebound = use_scratch_rebound(d)
@@ -1110,11 +1248,12 @@ def run(c):
                       "(finite differences, threshold 1e-3), not proved",
                       "shadow systems have e < 0.18 so that F18 (Pal Kepler solver) does not blur the 1e-3 threshold; the F18 region is "
                       "probed by the derivative oracle"]
-    tie_accelerations(c, rebound, exe)
-    tie_com_rescale(c, rebound, exe)
-    search_derivatives(c, rebound)
-    search_shadow(c, rebound)
-    search_rescale_megno(c, rebound)
+    big = 6 if c.thorough else 1
+    run_phase(c, "tie-accelerations", lambda: tie_accelerations(c, rebound, exe), 120 * big)
+    run_phase(c, "tie-com-rescale", lambda: tie_com_rescale(c, rebound, exe), 120 * big)
+    run_phase(c, "derivatives", lambda: search_derivatives(c, rebound), 120 * big)
+    run_phase(c, "shadow", lambda: search_shadow(c, rebound), 150 * big)
+    run_phase(c, "rescale-megno", lambda: search_rescale_megno(c, rebound), 60 * big)
 
 
 if __name__ == "__main__":
